@@ -26,6 +26,9 @@ def parse_stats(out):
     m = re.findall(r'(\d+) states generated, (\d+) distinct states found', out)
     if m:
         st['states'] = int(m[-1][0]); st['distinct'] = int(m[-1][1])
+    m2 = re.findall(r'The number of states generated: (\d+)', out)
+    if m2 and not m:
+        st['states'] = int(m2[-1]); st['distinct'] = int(m2[-1]); st['simulation'] = True
     m = re.findall(r'depth of the complete state graph search is (\d+)', out)
     if m: st['depth'] = int(m[-1])
     return st
@@ -62,10 +65,10 @@ def run_tlc(module, cfg, env=None, workers=1, timeout=3600, extra=None, tmp=None
     return out, st
 
 
-def generate(module, cfg, family, tier, seed, parts=16, timeout=3600, extra_env=None, use_cache=True):
+def generate(module, cfg, family, tier, seed, parts=16, timeout=3600, extra_env=None, use_cache=True, extra=None):
     """Run a scenario generator in `parts` single-worker JVMs; returns (records, stats)."""
     key = '%s-%s-%s-%s-%d-%s' % (module, cfg, family, tier, seed, spec_hash())
-    if extra_env: key += '-' + hashlib.sha256(json.dumps(extra_env, sort_keys=True).encode()).hexdigest()[:8]
+    if extra_env or extra: key += '-' + hashlib.sha256(json.dumps([extra_env, extra], sort_keys=True).encode()).hexdigest()[:8]
     cf = os.path.join(CACHE, key + '.json')
     if use_cache and os.path.exists(cf):
         d = json.load(open(cf))
@@ -80,7 +83,7 @@ def generate(module, cfg, family, tier, seed, parts=16, timeout=3600, extra_env=
                'OUT_FILE': out_file}
         if extra_env: env.update(extra_env)
         sub = os.path.join(tmp, 'p%d' % part); os.makedirs(sub)
-        out, st = run_tlc(module, cfg, env=env, timeout=timeout, tmp=sub)
+        out, st = run_tlc(module, cfg, env=env, timeout=timeout, tmp=sub, extra=extra)
         if st['violation']:
             raise TlcError('model-level invariant %s violated while generating %s/%s:\n%s' % (st['violation'], module, family, out[-3000:]))
         recs = []
